@@ -35,6 +35,53 @@ def _filter_closure_ok(F, clo, setterm):
     return ok, 'closure returns ' + pretty(t)
 
 
+BAD_ADAPT = ('rev', 'skip', 'take', 'filter', 'step_by', 'skip_while', 'take_while', 'filter_map', 'chain', 'flat_map', 'zip')
+
+
+def _is_result(z, st, sbi):
+    return isinstance(z, tuple) and z and z[0] == 'call' and z[1] == st['res'] and z[3] == sbi
+
+
+def _bulk_keys(F, body, setterm, st, sbi):
+    """calls  SET.extend(RESULT.iter().map(|n| key(n)))  -- every element, in order, no other adaptor"""
+    from .core import closure_result
+    pv = F.prov(body)
+    out = []
+    for bi, t in calls_in(body):
+        if callee_name(t).split('::')[-1].rstrip('>') != 'extend' or len(t['args']) < 2 or deep_unwrap(pv.of_operand(t['args'][0])) != setterm:
+            continue
+        src = pv.of_operand(t['args'][1])
+        cs = term_calls(src)
+        if not term_mentions(src, lambda z: _is_result(z, st, sbi)):
+            continue
+        if any(c[1].startswith('std::iter::Iterator::') and c[1].split('::')[-1] in BAD_ADAPT for c in cs):
+            continue
+        maps = [c for c in cs if c[1] == 'std::iter::Iterator::map']
+        if len(maps) != 1:
+            continue
+        cr = closure_result(F, maps[0][2][1], [P2_])
+        if cr is not None and deep_unwrap(cr) == key_of(P2_):
+            out.append((bi, t))
+    return out
+
+
+def _bulk_whole(F, body, dstterm, st, sbi):
+    """calls  DST.extend(RESULT) / DST.append(&mut RESULT): the whole result, in order"""
+    pv = F.prov(body)
+    out = []
+    for bi, t in calls_in(body):
+        nm = callee_name(t).split('::')[-1].rstrip('>')
+        if nm not in ('extend', 'append') or len(t['args']) < 2 or strip_payload(pv.of_operand(t['args'][0])) != dstterm:
+            continue
+        src = pv.of_operand(t['args'][1])
+        if not term_mentions(src, lambda z: _is_result(z, st, sbi)):
+            continue
+        if any(c[1].startswith('std::iter::Iterator::') and c[1].split('::')[-1] in BAD_ADAPT + ('map',) for c in term_calls(src)):
+            continue
+        out.append((bi, t))
+    return out
+
+
 def scc_rules(ctx, flavours):
     F = ctx.F
     out = []
@@ -148,6 +195,9 @@ def scc_rules(ctx, flavours):
                                 if len(ins) == 1 and not _exhaustive(F, sc, l):
                                     ins_ok = True
                         if not ins_ok:
+                            bk = _bulk_keys(F, sc, ASSIGNED, st, sbi)
+                            ins_ok = len(bk) == 1 and scfg.dominates(sbi, bk[0][0])
+                        if not ins_ok:
                             why.append('not every node of the component is marked assigned')
                         pushes = [(pbi, pt) for pbi, pt in calls_in(sc) if callee_name(pt).endswith('Vec::push') and strip_payload(spv.of_operand(pt['args'][0])) == ret]
                         good = [p for p in pushes if term_mentions(spv.of_operand(p[1]['args'][1]), lambda z: isinstance(z, tuple) and z and z[0] == 'call' and z[1] == st['res'] and z[3] == sbi)]
@@ -204,7 +254,11 @@ def scc_rules(ctx, flavours):
                         if not ok:
                             why.append('filter does not reject edges into visited nodes: ' + msg)
                     inner = [l for lb, l in FL.items() if lb != mb and term_mentions(l['iter'], lambda z: isinstance(z, tuple) and z and z[0] == 'call' and z[1] == st['res'] and z[3] == sbi)]
-                    if len(inner) != 1:
+                    bk = _bulk_keys(F, fb, VIS, st, sbi) if not inner else []
+                    bw = _bulk_whole(F, fb, fret, st, sbi) if not inner else []
+                    if not inner and len(bk) == 1 and len(bw) == 1 and fcfg.dominates(sbi, bk[0][0]) and fcfg.dominates(sbi, bw[0][0]):
+                        pass   # bulk form: visited.extend(keys of the postorder); ordering.extend(postorder)
+                    elif len(inner) != 1:
                         why.append('result of the first-pass search is not walked by exactly one loop')
                     else:
                         l = inner[0]
